@@ -354,6 +354,7 @@ pub fn run(ctx: &Ctx) -> i32 {
         let n = if ctx.quick() { 12 } else { 16 };
         explore(ctx, &format!("COMBO: complete 12-step buildings, {n} subsystems absent/present"), Layered { slots: alpha::combo_slots(n), bases: alpha::bases(false) }, C18 { cli: false }, shared.clone());
     }
+    explore(ctx, "VOCAB: every (service, carrier) pair / cogeneration fuel / production source added to a small building", Wide { alphabet: alpha::vocab_letters(), bases: alpha::vocab_base(), max_add: if ctx.quick() { 1 } else { 2 }, repeat: false }, C18 { cli: false }, shared.clone());
     explore(ctx, "shipped files + <=1 line (in-process + CLI --oc/--of round trip)", Wide { alphabet: alpha::seeded_letters(), bases: alpha::shipped_bases(), max_add: if ctx.quick() { 0 } else { 1 }, repeat: false }, C18 { cli: true }, shared.clone());
     let mut small = extra_letters();
     small.push(Letter::one(u(Some(0), "CAL", "GASNATURAL", &k(&[3, 1]))));
